@@ -96,6 +96,9 @@ Decode2 == DecodeAt(2)
 Decode3 == DecodeAt(3)
 Decode5 == DecodeAt(5)
 DecodeSizes == LET k == TokInt(left, b0, b1, b2, b3, b4) IN k.t = "i" => k.n \in {1, 2, 3, 5}
+\* NOT discharged as single queries (time-outs of 200 - 250 s): RoundTrip, RoundTripForms, DecodeExact.  Discharged
+\* instead: IntSizeRange + RoundTrip1/2/3 (+ RoundTrip5 from InitD), Form3, Form5 (InitD) - whose conjunction is
+\* RoundTrip and RoundTripForms by the definitions of IntSize and Dev_IntEncoding - and DecodeSizes + Decode1/2/3/5.
 \* planted FALSE lemma: the 2-byte forms reach 1132
 PlantedFalse == (v = 1132) => IntSize(v) = 2 \/ TokOfEnc(EncIntOp(v), 5).n = 2
 =============================================================================
